@@ -1,6 +1,7 @@
 import OmplModel.Proofs.PlannerProtoRoots
 import OmplModel.Proofs.PlannerProtoControl
 import OmplModel.Proofs.PlannerProtoPrm
+import OmplModel.Proofs.PlannerProtoGoal
 /-!
 # C03 — interrupting, resuming or clearing a planner never corrupts its result
 
@@ -215,6 +216,147 @@ example : dirtyAfter Pn (M.init rc) false
 example : dirtyAfter Pn (M.init rc) false
     [.setProblemDefinition 1 [(7, true)], .solve 1 [⟨0, true, 8, false, 5⟩], .setProblemDefinition 2 [(3, true)]] = true := by
   decide
+
+/-! ## Round 10: the intermediate-states branch of geometric::RRT, the goal test, evaluation count, resumed search -/
+
+/-- the intermediate-states core of geometric::RRT (`getMotionStates` with `count = validSegmentCount - 1` interior
+states, `states[0]` freed, the others adopted by chained motions) satisfies the laws of the generic theorems, whatever
+`validSegmentCount` and `interpolate` compute -/
+theorem rrti_core_lawful (G : Geom σ) : LawfulCore (rrtiCore G : CoreSpec σ δ (Draw σ δ) (Tree σ)) := rrti_lawful G
+
+/-- **Allocations are balanced for geometric::RRT with intermediate states**, every history, every `k`: every state
+`getMotionStates` allocates is freed once (`states[0]`) or owned by exactly one motion; after `clear()` only path
+states are live.  (A branch that forgets `freeState(states[0])`, or adopts `states[0]` too, is not lawful.) -/
+theorem alloc_balanced_intermediate (G : Geom σ) (P : Params σ δ) (ops : List (Op σ (Draw σ δ))) :
+    (∃ L, replay ([], 0) (reach (rrtiCore G) P ops).log = some (L, (reach (rrtiCore G) P ops).next) ∧
+      L.Perm ((rrtiCore (δ := δ) G).owned (reach (rrtiCore G) P ops).core ++ (reach (rrtiCore G) P ops).handed)) ∧
+    (∃ L, replay ([], 0) (clear (rrtiCore G) (reach (rrtiCore G) P ops)).log = some (L, (reach (rrtiCore G) P ops).next) ∧
+      L.Perm (reach (rrtiCore G) P ops).handed) :=
+  ⟨alloc_balanced _ (rrti_lawful G) P ops, alloc_balanced_after_clear _ (rrti_lawful G) P ops⟩
+
+/-- the three executable tree cores are `TreeCore`s: motions in an array, roots = consumed start states, a loop body only
+appends children below existing motions and never touches an existing motion -/
+theorem tree_cores : TreeCore (rrtCore : CoreSpec σ δ (Draw σ δ) (Tree σ)) ∧
+    TreeCore (crrtCore : CoreSpec σ δ (CDraw σ δ) (Tree σ)) ∧
+    ∀ G : Geom σ, TreeCore (rrtiCore G : CoreSpec σ δ (Draw σ δ) (Tree σ)) :=
+  ⟨rrt_treeCore, crrt_treeCore, rrti_treeCore⟩
+
+/-- **`solve_never_empty_path` and `lastGoalMotion_never_dangles` for every tree core** (in particular control::RRT with
+intermediate states and geometric::RRT with intermediate states, which round 2 / round 6 had left to the generic
+`solve_path_nonempty`): for every history `lastGoalMotion_` is null or inside the tree, and if the tree cannot hold
+motions of a replaced query (`TG.dirtyAfter … = false`) every path added by the next `solve` (any `k`) is non-empty and
+begins at a VALID start state of the current problem definition. -/
+theorem tree_core_paths_start_at_start (cs : CoreSpec σ δ D (Tree σ)) (ht : TreeCore cs) (P : Params σ δ) (ops : List (Op σ D)) :
+    (∀ i, (reach cs P ops).lastGoal = some i → i < (reach cs P ops).core.size) ∧
+    (TG.dirtyAfter cs P (M.init cs) false ops = false → ∀ (k : Nat) (ds : List D),
+      ∀ s ∈ (solve cs P (reach cs P ops) k ds).added, s.path ≠ [] ∧
+        ∃ st, s.path.head? = some st ∧ validStart (solve cs P (reach cs P ops) k ds).m st) := by
+  have I0 := TG.init_inv (δ := δ) cs ht
+  have I := TG.run_inv cs ht P ops (M.init cs) false I0.1 I0.2.1 (fun _ => I0.2.2)
+  refine ⟨I.2.1, ?_⟩
+  intro hclean k ds s hs
+  exact ⟨(solve_added cs ht.lawful P _ k ds s hs).1, TG.solve_head cs ht P _ k ds I.1 (I.2.2 hclean) s hs⟩
+
+/-- **Calling `solve()` again continues the preserved search**: for every tree core and every history, the tree a
+`solve` call (any `k`, any oracle answers) returns with has the tree it found as a PREFIX — every motion is still
+there, at the same index, with the same state, parent and allocation id; only `clear()` / `clearQuery()` / the
+destructor drop motions.  (The prologue only appends root motions, a loop body only appends children.) -/
+theorem resume_continues_search (cs : CoreSpec σ δ D (Tree σ)) (ht : TreeCore cs) (P : Params σ δ) (ops : List (Op σ D))
+    (k : Nat) (ds : List D) :
+    (reach cs P ops).core.toList <+: (solve cs P (reach cs P ops) k ds).m.core.toList := by
+  have I0 := TG.init_inv (δ := δ) cs ht
+  have I := TG.run_inv cs ht P ops (M.init cs) false I0.1 I0.2.1 (fun _ => I0.2.2)
+  exact TG.solve_prefix cs ht P _ k ds I.1
+
+/-- **Bounded further evaluations** (any core, any machine state): with the termination condition false for its first
+`k` evaluations, one `solve` call evaluates it at most `k + 1` times — never again after the first `true` — and
+when the call ends with TIMEOUT or APPROXIMATE_SOLUTION (it returned because the condition fired, not because the goal
+was reached) it evaluated it exactly `k + 1` times: the first `true` answer is the last evaluation. -/
+theorem solve_evaluations_bounded (cs : CoreSpec σ δ D C) (P : Params σ δ) (m : M σ δ C) (k : Nat) (ds : List D) :
+    (solve cs P m k ds).evals ≤ k + 1 ∧
+    (((solve cs P m k ds).status = .timeout ∨ (solve cs P m k ds).status = .approximate) →
+      (solve cs P m k ds).evals = k + 1) := by
+  refine ⟨solve_evals cs P m k ds, ?_⟩
+  unfold solve
+  cases m.pdef with
+  | none => simp
+  | some pd =>
+    simp only
+    split
+    · simp
+    · have F := loop_evals_fired cs P.ltD k ds (prologue cs m pd).1.core ⟨none, none, P.inf⟩ ((prologue cs m pd).1.next + 2) rfl
+      unfold finish
+      split
+      · rename_i i a hp
+        intro hst
+        simp only at hst ⊢
+        have hstarved : (loop cs P.ltD k ds (prologue cs m pd).1.core ⟨none, none, P.inf⟩ ((prologue cs m pd).1.next + 2)).starved = false := by
+          cases h : (loop cs P.ltD k ds (prologue cs m pd).1.core ⟨none, none, P.inf⟩ ((prologue cs m pd).1.next + 2)).starved with
+          | false => rfl
+          | true => simp [h] at hst
+        have ha : a = true := by
+          cases a with
+          | true => rfl
+          | false => simp [hstarved] at hst
+        apply F hstarved
+        unfold pick at hp
+        split at hp
+        · simp at hp; rw [ha] at hp; simp at hp
+        · assumption
+      · rename_i hp
+        intro hst
+        simp only at hst ⊢
+        have hstarved : (loop cs P.ltD k ds (prologue cs m pd).1.core ⟨none, none, P.inf⟩ ((prologue cs m pd).1.next + 2)).starved = false := by
+          cases h : (loop cs P.ltD k ds (prologue cs m pd).1.core ⟨none, none, P.inf⟩ ((prologue cs m pd).1.next + 2)).starved with
+          | false => rfl
+          | true => simp [h] at hst
+        apply F hstarved
+        unfold pick at hp
+        split at hp
+        · simp at hp
+        · assumption
+
+/-- **A solution stored as exact reaches the goal** — with the goal test computed by the model (`goalDraw g`: the loop
+asks the goal `g` about the state the new motion holds, as `goal->isSatisfied(nmotion->state, &dist)` does): for the
+geometric RRT core and for its intermediate-states variant (where the tested motion is the LAST of the chain and holds a
+copy of `dstate`), whatever the planner state, `k`, and the oracle answers (nearest motion, motion valid?, new state):
+every solution a `solve` call adds with `approximate = false` ends in a state the goal is satisfied by — never a
+half-built path, never `approxsol` reported as exact. -/
+theorem exact_solution_reaches_goal (g : σ → Bool × δ) (P : Params σ δ) (m : M σ δ (Tree σ)) (k : Nat) (raws : List (RawDraw σ)) :
+    (∀ s ∈ (solve rrtCore P m k (raws.map (goalDraw g))).added, s.approx = false →
+      ∃ last, s.path.getLast? = some last ∧ (g last).1 = true) ∧
+    (∀ G : Geom σ, ∀ s ∈ (solve (rrtiCore G) P m k (raws.map (goalDraw g))).added, s.approx = false →
+      ∃ last, s.path.getLast? = some last ∧ (g last).1 = true) :=
+  ⟨solve_exact_goal rrtCore rrt_treeCore g (rrt_goalFaithful g) P m k raws,
+   fun G => solve_exact_goal (rrtiCore G) (rrti_treeCore G) g (rrti_goalFaithful G g) P m k raws⟩
+
+/-! non-vacuity (states and distances are `Nat`; a "segment" is one unit, interpolation walks the integers) -/
+
+def GN : Geom Nat := { segs := fun a b => b - a, interp := fun a _ j _ => a + j }
+def icoreN : CoreSpec Nat Nat (Draw Nat Nat) (Tree Nat) := rrtiCore GN
+/-- goal: states `≥ 10`, distance `10 - s` -/
+def gN : Nat → Bool × Nat := fun s => (decide (10 ≤ s), 10 - s)
+/-- one loop body from a one-motion tree (state 7), fresh id 5, new state 10: three segments, `getMotionStates` allocates
+`[7, 8, 9, 10]` as ids 5..8, frees id 5, the tree gains 8, 9, 10 and the goal is tested on motion 3 (state 10) -/
+example : (icoreN.iterate treeN 5 (goalDraw gN ⟨0, true, 10⟩)).evs = [.alloc 5, .alloc 6, .alloc 7, .alloc 8, .free 5] := by decide
+example : (icoreN.iterate treeN 5 (goalDraw gN ⟨0, true, 10⟩)).res = [(3, true, 0)] := by decide
+example : ((icoreN.iterate treeN 5 (goalDraw gN ⟨0, true, 10⟩)).core.toList.map (·.state)) = [7, 8, 9, 10] := by decide
+/-- `segments = 0` (same state): `count < 2` branch, two states allocated, one freed, one motion added -/
+example : (icoreN.iterate treeN 5 (goalDraw gN ⟨0, true, 7⟩)).evs = [.alloc 5, .alloc 6, .free 5] := by decide
+/-- a whole history: EXACT after one evaluation (`k = 5`: the goal `break`s the loop), tree 7, 8, 9, 10 -/
+example : ((solve icoreN Pn (reach icoreN Pn [.setProblemDefinition 1 [(7, true)]]) 5 [goalDraw gN ⟨0, true, 10⟩]).m.core.toList.map (·.state))
+    = [7, 8, 9, 10] := by decide
+example : (solve icoreN Pn (reach icoreN Pn [.setProblemDefinition 1 [(7, true)]]) 5 [goalDraw gN ⟨0, true, 10⟩]).status = .exact ∧
+    (solve icoreN Pn (reach icoreN Pn [.setProblemDefinition 1 [(7, true)]]) 5 [goalDraw gN ⟨0, true, 10⟩]).evals = 1 := by decide
+/-- `evals = k + 1` exactly when the condition ends the call: `k = 1`, one iteration that does not reach the goal -/
+example : (solve icoreN Pn (reach icoreN Pn [.setProblemDefinition 1 [(7, true)]]) 1 [goalDraw gN ⟨0, true, 9⟩, goalDraw gN ⟨0, true, 10⟩]).status
+    = .approximate ∧
+    (solve icoreN Pn (reach icoreN Pn [.setProblemDefinition 1 [(7, true)]]) 1 [goalDraw gN ⟨0, true, 9⟩, goalDraw gN ⟨0, true, 10⟩]).evals = 2 := by
+  decide
+/-- the hypothesis of `tree_core_paths_start_at_start` is satisfiable for the control core too -/
+example : TG.dirtyAfter ccoreN Pn (M.init ccoreN) false
+    [.setProblemDefinition 1 [(7, true)], .solve 1 [cdrawN], .setProblemDefinition 2 [(3, true)], .clear] = false := by decide
+example : LawfulCore icoreN := rrti_lawful GN
 
 /-! ## Third core: PRM's query bookkeeping (`Model/PlannerProtoPrm.lean`) -/
 
